@@ -575,6 +575,21 @@ fn create_doc_for_block(
   }
 }
 
+/// Whether the printed form of the expression can end with a member name (`a.b`, `-a.b`, `x + a.b`).
+/// After a member name the parser takes `<` for the start of explicit type arguments.
+fn ends_with_member_name(expression: &expr::E<()>) -> bool {
+  match expression {
+    expr::E::FieldAccess(e) => e.explicit_type_arguments.is_none(),
+    expr::E::MethodAccess(e) => e.explicit_type_arguments.is_none(),
+    expr::E::Unary(e) => {
+      e.argument.precedence() < expression.precedence() && ends_with_member_name(&e.argument)
+    }
+    expr::E::Binary(e) => ends_with_member_name(&e.e2),
+    expr::E::Lambda(e) => ends_with_member_name(&e.body),
+    _ => false,
+  }
+}
+
 fn create_doc_without_preceding_comment(
   heap: &Heap,
   comment_store: &CommentStore,
@@ -631,6 +646,21 @@ fn create_doc_without_preceding_comment(
         Document::Text(e.operator.kind_str()),
         Document::Text(" "),
       ]);
+      if e.operator == expr::BinaryOperator::LT && ends_with_member_name(&e.e1) {
+        // `a.b < c` is not a comparison for the parser: the left operand keeps its parentheses.
+        return Document::concat(vec![
+          parenthesis_surrounded_doc(create_doc(heap, comment_store, &e.e1)),
+          operator_preceding_comments_docs,
+          operator_doc,
+          create_doc_for_subexpression_considering_precedence_level(
+            heap,
+            comment_store,
+            expression,
+            &e.e2,
+            true,
+          ),
+        ]);
+      }
       if e.e1.precedence() == expression.precedence() {
         // Since we are doing left to right evaluation, this is safe.
         return Document::concat(vec![
